@@ -311,7 +311,14 @@ func (e *NameExpr) GetPos() int {
 }
 
 func (e *NameExpr) String() string {
-	return fmt.Sprintf("%s", e.Data)
+	// A name that does not read back as itself when it is written bare
+	// (capitals, blanks, operator characters, a keyword or a number) was
+	// written in back quotes and is printed that way
+	toks := NewLexer(e.Data).Split()
+	if len(toks) == 1 && toks[0].Tp == NAME && toks[0].Data == e.Data {
+		return e.Data
+	}
+	return fmt.Sprintf("`%s`", e.Data)
 }
 
 func (e *NameExpr) ReturnType() Type {
